@@ -87,16 +87,16 @@ func (s *State) Get(key StoreKey) ([]byte, error) {
 		// Get the txSession first
 		result, err := s.txSession.Get(key)
 		if err == nil {
-			// if got result, return directly
-			return result, err
+			// if got result, return directly (a deleted key reads as absent)
+			return hideTombstone(result), err
 		}
 	}
 
 	// Get the cache first
 	result, err := s.cache.Get(key)
 	if err == nil {
-		// if got result, return directly
-		return result, err
+		// if got result, return directly (a deleted key reads as absent)
+		return hideTombstone(result), err
 	}
 
 	// if didn't get result in cache, get from ChainState
@@ -115,10 +115,9 @@ func (s *State) Set(key StoreKey, value []byte) error {
 func (s *State) Exists(key StoreKey) bool {
 
 	if s.txSession != nil {
-		// check existence in txSession
-		exist := s.txSession.Exists(key)
-		if exist {
-			return exist
+		// check existence in txSession; a key deleted in the session does not exist
+		if result, err := s.txSession.Get(key); err == nil {
+			return !isTombstone(result)
 		}
 	}
 
@@ -129,7 +128,23 @@ func (s *State) Exists(key StoreKey) bool {
 		return s.cs.Exists(key)
 	}
 
+	// a key deleted in this block does not exist
+	if result, err := s.cache.Get(key); err == nil {
+		return !isTombstone(result)
+	}
 	return exist
+}
+
+func isTombstone(value []byte) bool {
+	return bytes.Equal(value, []byte(TOMBSTONE))
+}
+
+// hideTombstone makes the delete marker held by a cache layer read as an absent key
+func hideTombstone(value []byte) []byte {
+	if isTombstone(value) {
+		return nil
+	}
+	return value
 }
 
 func (s *State) Delete(key StoreKey) (bool, error) {
